@@ -19,12 +19,5 @@ func VerifFormatExp(e Exp, prefix string) string {
 // VerifSingleLineFormat exposes singleLineFormat.
 func VerifSingleLineFormat(e Exp) bool { return singleLineFormat(e) }
 
-// VerifQuoteString exposes quoteString.
-func VerifQuoteString(s string) string {
-	var sb strings.Builder
-	quoteString(&sb, s)
-	return sb.String()
-}
-
 // VerifIndent is the formatter's indentation unit.
 const VerifIndent = INDENT
